@@ -14,6 +14,9 @@
 //!               every word and the inhibited cells after the load.
 //!  * `poslimit` — the merged POS list at the edge of what a `u16` id addresses (finding P2 and its repair): real user dictionaries
 //!               with up to 32 767 own parts of speech, loads with exactly 65 536 / 65 537 / many more entries.
+//!  * `reads`  — user dictionaries compiled by ONE `DictBuilder::new_user` that is given 1-4 CSV sources and is used further after
+//!               `read_lexicon` REJECTED some of them at their k-th line (the rows in front of that line stay in the builder and
+//!               are compiled): what each call returned, the POS table that was written, the stored POS ids, and the loaded stack.
 //! Strings are interned per case (the model only compares them).
 use crate::common::*;
 use crate::dict::*;
@@ -1273,6 +1276,376 @@ fn run_poslimit(run: &mut Run, idx: usize, rng: &mut Rng, directed: bool) {
     }
 }
 
+// ------------------------------------------------------------------------------------------------ reads
+
+/// one line of a CSV source given to a builder of a `reads` case
+#[derive(Clone, Debug)]
+struct RLine {
+    g: GRow,
+    /// 0 = well-formed, 1 = malformed in a column before the splits (nothing interned), 2 = empty surface (rejected after
+    /// everything was interned), 3 = an A-mode row with splits (rejected by the reader for its content: the model needs no mark)
+    defect: u8,
+    early_kind: usize,
+    /// the word number in the compiled dictionary, for a line the builder keeps
+    kept: Option<usize>,
+}
+
+#[derive(Clone, Debug, Default)]
+struct RSource {
+    lines: Vec<RLine>,
+    /// index of the rejected line
+    bad: Option<usize>,
+}
+
+struct RUser {
+    sources: Vec<RSource>,
+    /// the rows the builder keeps, in word-number order: the declared data of the compiled dictionary
+    kept: GDict,
+}
+
+/// One user dictionary = ONE `DictBuilder::new_user` that is given 1-4 CSV sources, some of which are rejected at their k-th line
+/// after 0-3 valid rows; the caller goes on (further sources, resolve, compile).
+fn gen_reads_user(rng: &mut Rng, sys: &GDict, choices: &[usize], n_ids: usize, tagp: &str, force_fail: bool, directed: Option<usize>) -> RUser {
+    // plan: (rows in front, Some(defect) + rows behind)
+    let nsrc = rng.range(1, 4);
+    let mut plan: Vec<(usize, Option<(u8, usize)>)> = (0..nsrc).map(|_| {
+        let front = rng.below(4);
+        let fail = if rng.chance(1, 2) { Some((*rng.pick(&[1u8, 1, 2, 3, 3]), rng.below(3))) } else { None };
+        (front, fail)
+    }).collect();
+    if let Some(k) = directed {
+        // the smallest instances: [valid row with a new POS, rejected line] then (0) nothing, (1) a source with another new POS, (2) two rejected sources in a row and an accepted one
+        plan = match k {
+            0 => vec![(1, Some((1, 0)))],
+            1 => vec![(1, Some((3, 0))), (1, None)],
+            _ => vec![(2, Some((2, 1))), (1, Some((1, 1))), (2, None)],
+        };
+    }
+    if force_fail && !plan.iter().any(|p| p.1.is_some()) { let i = rng.below(plan.len()); plan[i].1 = Some((*rng.pick(&[1u8, 2, 3]), rng.below(2))); plan[i].0 = plan[i].0.max(1); }
+    if plan.iter().map(|p| p.0).sum::<usize>() == 0 { plan[0].0 = 1; }
+    let id = |rng: &mut Rng| rng.below(n_ids) as i32;
+    let simple = |rng: &mut Rng| -> GRow {
+        let mut row = Row::simple(&rand_word(rng, SURF_CHARS, 2), id(rng), id(rng), rng.below(3000) as i32 - 500, *rng.pick(choices));
+        row.reading = rand_word(rng, READ_CHARS, 2);
+        GRow { row, a: vec![], b: vec![], w: vec![], tag: String::new() }
+    };
+    let mut sources: Vec<RSource> = vec![];
+    let mut nkept = 0;
+    let mut nother = 0;
+    for (front, fail) in &plan {
+        let mut src = RSource::default();
+        for _ in 0..*front { src.lines.push(RLine { g: simple(rng), defect: 0, early_kind: 0, kept: Some(nkept) }); nkept += 1; }
+        if let Some((defect, behind)) = fail {
+            src.bad = Some(src.lines.len());
+            src.lines.push(RLine { g: simple(rng), defect: *defect, early_kind: rng.below(3), kept: None });
+            for _ in 0..*behind { src.lines.push(RLine { g: simple(rng), defect: 0, early_kind: 0, kept: None }); }
+        }
+        sources.push(src);
+    }
+    if let Some(_) = directed {
+        // every row its own POS, none of them a system POS
+        let mut p = POOL.len();
+        for s in sources.iter_mut() { for l in s.lines.iter_mut() { p -= 1; l.g.row.pos = p; } }
+    }
+    for s in sources.iter_mut() { for l in s.lines.iter_mut() {
+        l.g.tag = match l.kept { Some(w) => format!("#{}w{}", tagp, w), None => { nother += 1; format!("#{}x{}", tagp, nother) } };
+        l.g.row.norm = l.g.tag.clone();
+    } }
+    // compounds: units refer to kept rows that stay simple, and to system rows
+    let kept0 = GDict { rows: sources.iter().flat_map(|s| s.lines.iter()).filter(|l| l.kept.is_some()).map(|l| l.g.clone()).collect() };
+    let mut compound: Vec<bool> = vec![false; nkept];
+    if directed.is_none() { for c in compound.iter_mut() { *c = rng.chance(1, 3); } }
+    if compound.iter().all(|c| *c) { compound[0] = false; }
+    let simples: Vec<usize> = (0..nkept).filter(|j| !compound[*j]).collect();
+    for s in sources.iter_mut() { for l in s.lines.iter_mut() {
+        let make = match l.kept { Some(w) => compound[w], None => l.defect == 3 || (directed.is_none() && rng.chance(1, 3)) };
+        if !make { continue; }
+        let n = rng.range(1, 3);
+        let units: Vec<UnitSpec> = (0..n).map(|_| match rng.below(6) {
+            0 => UnitSpec::Own(*rng.pick(&simples)),
+            1 => UnitSpec::Sys(rng.below(sys.rows.len())),
+            2 | 3 => UnitSpec::InlOwn(*rng.pick(&simples)),
+            _ => UnitSpec::InlSys(rng.below(sys.rows.len())),
+        }).collect();
+        l.g.row.surface = units.iter().map(|u| unit_surface(u, &kept0, sys)).collect();
+        l.g.row.headword = l.g.row.surface.clone();
+        l.g.row.mode = if l.defect == 3 { 'A' } else { *rng.pick(&['B', 'C']) };
+        match rng.below(3) { 0 => { l.g.a = units.clone(); } 1 => { l.g.b = units.clone(); } _ => { l.g.a = units.clone(); l.g.b = units.clone(); } }
+        if l.g.row.mode == 'B' { l.g.a = units.clone(); l.g.b = vec![]; }
+        if units.iter().all(|u| matches!(u, UnitSpec::Own(_) | UnitSpec::Sys(_))) && rng.chance(1, 2) { l.g.w = units.clone(); }
+    } }
+    let kept = GDict { rows: sources.iter().flat_map(|s| s.lines.iter()).filter(|l| l.kept.is_some()).map(|l| l.g.clone()).collect() };
+    let cx = Ctx { user: true, sys };
+    for s in sources.iter_mut() { for l in s.lines.iter_mut() {
+        l.g.row.split_a = units_csv(&l.g.a, &kept, &cx);
+        l.g.row.split_b = units_csv(&l.g.b, &kept, &cx);
+        l.g.row.wstruct = units_csv(&l.g.w, &kept, &cx);
+    } }
+    let mut kept = kept;
+    let fin: Vec<GRow> = sources.iter().flat_map(|s| s.lines.iter()).filter(|l| l.kept.is_some()).map(|l| l.g.clone()).collect();
+    kept.rows = fin;
+    RUser { sources, kept }
+}
+
+/// the CSV text of a source: the damaged line gets its damage here
+fn reads_csv(src: &RSource) -> String {
+    let mut out = String::new();
+    for l in &src.lines {
+        let line = csv_of(&[l.g.row.clone()], &pool_vec());
+        let line = line.trim_end_matches('\n');
+        match l.defect {
+            1 => {
+                // surfaces are made of SURF_CHARS: the first columns hold no quoted comma
+                let mut f: Vec<String> = line.split(',').map(|x| x.to_string()).collect();
+                match l.early_kind { 0 => { f[1] = "x".into(); } 1 => { f.truncate(4); } _ => { f[3] = "99999".into(); } }
+                out.push_str(&f.join(","));
+            }
+            2 => { let i = line.find(',').unwrap_or(0); out.push_str(&line[i..]); }
+            _ => out.push_str(line),
+        }
+        out.push('\n');
+    }
+    out
+}
+
+fn read_kind(e: &str) -> String {
+    for (pat, k) in [
+        ("InvalidSplitWordReference", "SplitRef"), ("InvalidSplit", "InvalidSplit"), ("InvalidWordId", "InvalidWordId"),
+        ("PosLimitExceeded", "PosLimit"), ("InvalidSize", "InvalidSize"), ("EmptySurface", "EmptySurface"),
+        ("InvalidI16Literal", "Malformed"), ("NoRawField", "Malformed"),
+    ] {
+        if e.contains(pat) { return format!("err:{}", k); }
+    }
+    format!("err:Other({})", e.chars().filter(|c| !c.is_whitespace()).take(60).collect::<String>())
+}
+
+/// ONE builder, every source in order, an `Err` of `read_lexicon` is recorded and the builder used further
+fn build_user_reads(base: &JapaneseDictionary, sources: &[String]) -> (Vec<String>, Result<Vec<u8>, String>) {
+    let mut reads: Vec<String> = vec![];
+    let r = catch(|| -> Result<Vec<u8>, String> {
+        let mut b = sudachi::dic::build::DictBuilder::new_user(base);
+        b.set_compile_time(std::time::UNIX_EPOCH + std::time::Duration::from_secs(1_600_000_000));
+        b.set_description("verif-user");
+        for s in sources {
+            match b.read_lexicon(s.as_bytes()) {
+                Ok(n) => reads.push(format!("ok{}", n)),
+                Err(e) => reads.push(read_kind(&format!("{:?}", e))),
+            }
+        }
+        b.resolve().map_err(|e| format!("resolve: {:?}", e))?;
+        let mut out = vec![];
+        b.compile(&mut out).map_err(|e| format!("compile: {:?}", e))?;
+        Ok(out)
+    });
+    let r = match r { Ok(x) => x, Err(p) => Err(format!("PANIC {}", p)) };
+    while reads.len() < sources.len() { reads.push("PANIC".into()); }
+    (reads, r)
+}
+
+/// User dictionaries compiled by a builder that saw REJECTED sources in between (the builder keeps the rows in front of the
+/// rejected line and every row of the accepted sources; their POS ids were handed out while the POS table grew over all the
+/// calls).  The declared data of such a dictionary are the kept rows, each with the POS strings of its own CSV line.
+fn run_reads(run: &mut Run, idx: usize, rng: &mut Rng, directed: Option<usize>) {
+    let n_ids = rng.range(2, 3);
+    let matrix = Matrix::random(rng, n_ids, n_ids, false);
+    let nsyspos = rng.range(1, 4);
+    let empty = GDict::default();
+    let so = GenOpts { user: false, pos_choices: (0..nsyspos).collect(), nsimple: rng.range(2, 4), ncompound: 0, broken: false, n_ids, tagp: "0".into() };
+    let sys = gen_dict(rng, &empty, &so);
+    let known: Vec<usize> = { let mut v: Vec<usize> = sys.rows.iter().map(|r| r.row.pos).collect(); v.sort(); v.dedup(); v };
+    let quiet = directed.is_some() || rng.chance(1, 2);
+    let plug = gen_plugins(rng, n_ids, &known, false, quiet);
+    let nusers = if directed.is_some() { 1 + (directed == Some(2)) as usize } else { *rng.pick(&[1usize, 1, 2, 2, 3]) };
+    let shared: Vec<usize> = (0..2).map(|_| rng.range(0, POOL.len() - 1)).collect();
+    let users: Vec<RUser> = (0..nusers).map(|u| {
+        let mut choices = shared.clone();
+        choices.push(*rng.pick(&known));
+        for _ in 0..rng.range(1, 4) { choices.push(rng.range(0, POOL.len() - 1)); }
+        let force = u == 0 || rng.chance(1, 2);
+        gen_reads_user(rng, &sys, &choices, n_ids, &format!("{}", u + 1), force, directed)
+    }).collect();
+
+    let mut it = Intern::default();
+    let wd = Workdir::new(&format!("c12r-{}", idx));
+    if let Some(u) = &plug.unk { wd.write("unk_c12.def", u); }
+    let cfg = config_json(&wd, &[], &plug.json, &[], &[]);
+    let base_cfg = config_json(&wd, &[], &[format!(
+        r#"{{"class":"com.worksap.nlp.sudachi.SimpleOovPlugin","oovPOS":{},"leftId":0,"rightId":0,"cost":30000}}"#,
+        pos_json(&pos_strings(sys.rows[0].row.pos)))], &[], &[]);
+    let sys_cx = Ctx { user: false, sys: &sys };
+    let user_cx = Ctx { user: true, sys: &sys };
+    let sys_wire = dict_wire(&sys, &sys_cx, &mut it);
+    let plug_wire = plug.calls.iter().map(|(a, p)| format!("{}:{}", if *a { "a" } else { "f" }, it.pos(p))).collect::<Vec<_>>().join(";");
+    let users_wire = users.iter().map(|u| u.sources.iter().map(|s| {
+        let d = GDict { rows: s.lines.iter().map(|l| l.g.clone()).collect() };
+        // the units of a line refer to the KEPT rows of the builder: written with the kept list as `me`
+        d.rows.iter().map(|r| {
+            let mode = match r.row.mode { 'A' => 0, 'B' => 1, _ => 2 };
+            format!("{}:{}:{}:{}:{}:{}:{}:{}", it.tok(&r.row.surface), it.tok(&r.row.headword), it.tok(&r.row.reading), mode,
+                it.pos(&POOL[r.row.pos]), units_wire(&r.a, &u.kept, &user_cx, &mut it), units_wire(&r.b, &u.kept, &user_cx, &mut it), units_wire(&r.w, &u.kept, &user_cx, &mut it))
+        }).collect::<Vec<_>>().join(";")
+    }).collect::<Vec<_>>().join("^")).collect::<Vec<_>>().join("|");
+    let bad_wire = users.iter().map(|u| u.sources.iter().map(|s| match s.bad {
+        Some(k) => match s.lines[k].defect { 1 => format!("{}e", k), 2 => format!("{}l", k), _ => "-".into() },
+        None => "-".into(),
+    }).collect::<Vec<_>>().join("^")).collect::<Vec<_>>().join("|");
+    let payload = format!("sysrows={} plug={} pre={} mv={} users={} bad={}", sys_wire, plug_wire, impl_pre_variant(), impl_merge_variant(), users_wire, bad_wire);
+
+    // distribution; non-trivial = a rejected line comes after a kept row of the same builder whose POS is not a system POS
+    let sys_pos: Vec<usize> = known.clone();
+    let mut hit = false;
+    for u in &users {
+        let mut new_before = false;
+        let mut nfail = 0;
+        for s in &u.sources {
+            for (i, l) in s.lines.iter().enumerate() {
+                if s.bad == Some(i) {
+                    nfail += 1;
+                    run.bump(&format!("reads:rejected:{}", match l.defect { 1 => "malformed-column", 2 => "empty-surface", _ => "a-mode-splits" }));
+                    if new_before { hit = true; run.bump("reads:rejected-after-new-pos"); }
+                    break;
+                }
+                if !sys_pos.contains(&l.g.row.pos) { new_before = true; }
+            }
+        }
+        run.bump(&format!("reads:sources:{}", u.sources.len()));
+        run.bump(&format!("reads:rejected-sources:{}", nfail));
+    }
+    run.bump(&format!("reads:users:{}", users.len()));
+    let desc = format!("users={} sources={:?}", users.len(), users.iter().map(|u| u.sources.iter().map(|s| reads_csv(s)).collect::<Vec<_>>()).collect::<Vec<_>>());
+
+    // --- real pipeline
+    let system = match build_system(gcsv(&sys).as_bytes(), matrix.text().as_bytes()) {
+        Ok(b) => b,
+        Err(e) => { run.case(idx, "reads", &payload, &format!("err:Build:0:{}", build_kind(&e)), false); return; }
+    };
+    let base = match load(&base_cfg, system.clone(), vec![]) {
+        Ok(d) => d,
+        Err(e) => { run.case(idx, "reads", &payload, &load_kind(&e), false); run.fail(idx, "harness:base-load", &format!("the plain base dictionary does not load: {}", e)); return; }
+    };
+    let mut reads_ans: Vec<String> = vec![];
+    let mut build_ans: Vec<String> = vec![];
+    let mut bins: Vec<Vec<u8>> = vec![];
+    for u in &users {
+        let texts: Vec<String> = u.sources.iter().map(reads_csv).collect();
+        let (reads, bin) = build_user_reads(&base, &texts);
+        reads_ans.push(reads.join(","));
+        match bin {
+            Ok(b) => { build_ans.push("ok".into()); bins.push(b); }
+            Err(e) => { let k = build_kind(&e); build_ans.push(if k == "PANIC" { k } else { format!("err:{}", k) }); }
+        }
+    }
+    drop(base);
+    let head = format!("r={} b={}", reads_ans.join("|"), build_ans.join("|"));
+    if bins.len() != users.len() {
+        run.bump("reads:outcome:build-error");
+        run.case(idx, "reads", &payload, &head, hit);
+        return;
+    }
+    // the compiled dictionaries on their own: the POS table that was written and the POS id stored for every word
+    let mut tabs: Vec<String> = vec![];
+    let mut ids: Vec<String> = vec![];
+    for b in &bins {
+        let r = catch(|| -> Result<(String, String), String> {
+            let dl = DictionaryLoader::read_user_dictionary(b).map_err(|e| format!("{:?}", e))?;
+            let t = match &dl.grammar { Some(g) => g.pos_list.iter().map(|p| it.pos(p)).collect::<Vec<_>>().join(";"), None => "none".into() };
+            let mut lex = dl.lexicon;
+            lex.set_dic_id(0);
+            let mut v = vec![];
+            for w in 0..lex.size() { v.push(lex.get_word_info(w, InfoSubset::POS_ID).map_err(|e| format!("{:?}", e))?.pos_id().to_string()); }
+            Ok((t, v.join(",")))
+        });
+        match r { Ok(Ok((t, v))) => { tabs.push(t); ids.push(v); } _ => { tabs.push("unreadable".into()); ids.push("unreadable".into()); } }
+    }
+    let head = format!("{} t={} ids={}", head, tabs.join("|"), ids.join("|"));
+    let dic = match load(&cfg, system, bins) {
+        Ok(d) => d,
+        Err(e) => {
+            let ans = load_kind(&e);
+            run.bump(&format!("reads:outcome:{}", ans));
+            run.case(idx, "reads", &payload, &format!("{} {}", head, ans), hit);
+            run.fail(idx, "load:unexpected-error:reads", &format!("{} | {}", e, desc));
+            return;
+        }
+    };
+    run.bump("reads:outcome:loaded");
+    let pos_list: Vec<Vec<String>> = dic.grammar().pos_list.clone();
+    let mut dicts: Vec<&GDict> = vec![&sys];
+    for u in &users { dicts.push(&u.kept); }
+    let mut word_lines = vec![];
+    let mut wobs: Vec<Vec<Option<WObs>>> = vec![];
+    for (d, gd) in dicts.iter().enumerate() {
+        let mut row_obs = vec![];
+        for w in 0..gd.rows.len() {
+            match word_obs(&dic, d, w) {
+                Ok(Ok(o)) => {
+                    let p = match pos_list.get(o.pos_id as usize) { Some(p) => it.pos(p), None => "OOB".into() };
+                    word_lines.push(format!("{}.{}:{}:{}:{}:{}:{}", d, w, o.pos_id, p, star(&o.a), star(&o.b), star(&o.w)));
+                    row_obs.push(Some(o));
+                }
+                Ok(Err(e)) => { word_lines.push(format!("{}.{}:err:{}", d, w, e)); row_obs.push(None); }
+                Err(_) => { word_lines.push(format!("{}.{}:PANIC", d, w)); row_obs.push(None); }
+            }
+        }
+        wobs.push(row_obs);
+    }
+    let ans = format!("{} ok pos={} words={}", head, pos_list.iter().map(|p| it.pos(p)).collect::<Vec<_>>().join(";"), word_lines.join(";"));
+    run.case(idx, "reads", &payload, &ans, hit);
+
+    // --- oracle (independent of the model): the kept CSV lines are the specification
+    let mut tags: HashMap<String, (usize, usize)> = HashMap::new();
+    for (d, gd) in dicts.iter().enumerate() { for (w, r) in gd.rows.iter().enumerate() { tags.insert(r.tag.clone(), (d, w)); } }
+    'words: for (d, gd) in dicts.iter().enumerate() {
+        for (w, r) in gd.rows.iter().enumerate() {
+            let o = match &wobs[d][w] {
+                Some(o) => o,
+                None => { run.fail(idx, "word:unreadable:reads", &format!("word {} of dictionary {} (a row the builder kept) cannot be read | {}", w, d, desc)); break 'words; }
+            };
+            if o.norm != r.tag {
+                run.fail(idx, "word:identity:reads", &format!("dictionary {} word {}: normalized form {:?}, the builder kept the row {:?} at this place | {}", d, w, o.norm, r.tag, desc));
+                break 'words;
+            }
+            let declared = pos_strings(r.row.pos);
+            let got = pos_list.get(o.pos_id as usize);
+            if got != Some(&declared) {
+                run.fail(idx, "pos:word:reads", &format!("dictionary {} word {} ({}): POS id {} = {:?}, its CSV line declares {:?} | {}", d, w, r.row.surface, o.pos_id, got, declared, desc));
+                break 'words;
+            }
+        }
+    }
+    // morphemes over the kept words
+    let mut texts: Vec<String> = vec![];
+    for _ in 0..2 {
+        let mut s = String::new();
+        for _ in 0..rng.range(1, 4) {
+            if rng.chance(1, 4) { s.push_str(&rng.pick(&sys.rows).row.surface); } else { let u = rng.pick(&users); s.push_str(&rng.pick(&u.kept.rows).row.surface); }
+        }
+        texts.push(s);
+    }
+    'texts: for t in &texts {
+        let ms = match observe(&dic, t) {
+            Ok(Ok(ms)) => ms,
+            Ok(Err(e)) => { run.bump(&format!("reads:tokenize-error:{}", e)); continue; }
+            Err(p) => { run.fail(idx, "morph:panic:reads", &format!("tokenising {:?} panics: {} | {}", t, p.chars().take(100).collect::<String>(), desc)); break; }
+        };
+        for (m, sa, sb) in &ms {
+            for x in std::iter::once(m).chain(sa.iter()).chain(sb.iter()) {
+                if let Some(&(d, w)) = tags.get(&x.norm) {
+                    run.bump(if d == 0 { "reads:morph:system" } else { "reads:morph:user" });
+                    if x.did != d as i32 {
+                        run.fail(idx, "morph:dictid:reads", &format!("text {:?} morpheme {:?} comes from dictionary {} (row {}), dictionary_id() = {} | {}", t, x.surface, d, w, x.did, desc));
+                        break 'texts;
+                    }
+                    if x.pos != pos_strings(dicts[d].rows[w].row.pos) {
+                        run.fail(idx, "morph:pos:reads", &format!("text {:?} morpheme {:?} (dictionary {} row {}): part_of_speech() = {:?}, its CSV line declares {:?} | {}", t, x.surface, d, w, x.pos, POOL[dicts[d].rows[w].row.pos], desc));
+                        break 'texts;
+                    }
+                }
+            }
+        }
+    }
+}
+
 // ------------------------------------------------------------------------------------------------ wid
 
 fn run_wid(run: &mut Run, idx: usize, rng: &mut Rng, directed: Option<usize>) {
@@ -1530,8 +1903,13 @@ lexset: LexiconSet::new/append/lookup/get_word_info on 1..17 real lexicons with 
 boundaries; poslimit (1 directed world with 6 loads + 1 case in 64): a system dictionary with one POS and real user dictionaries with 32767 / 32766 / 32760 / 5 / 2 / 1 own POS \
 (compiled once per process) loaded in random order under 1-4 POS-registering OOV plugins, so that the merged POS list has exactly 65536, 65537 or up to 131 000 entries; \
 words at the ends of every dictionary and around entries 65535/65536 read through LexiconSet::get_word_info, judged against their CSV rows \
-(finding P2 / its repair: a list no u16 id can address must be refused at load, never answered with a wrapped id); grammar: get_part_of_speech_id / register_pos called directly (handle_user_pos is crate-private: reached through the plugins of the stack cases) on a real Grammar (POS of 5, 6, 7 components). non-trivial = stack with >= 1 user dictionary using a POS the system dictionary does not have, lexset with >= 1 appended \
-lexicon, every wid; distinct by line".into();
+(finding P2 / its repair: a list no u16 id can address must be refused at load, never answered with a wrapped id); reads (3 directed + 1 case in 8): 1-3 user dictionaries, each compiled by ONE DictBuilder::new_user that reads 1-4 CSV sources of 0-3 valid rows \
+(simple words and compounds with U-prefixed / numeric / inline units, POS from the pool: system POS, POS new to the builder, POS of an earlier source), about every second source REJECTED at the line behind them \
+(a column before the splits malformed: left id `x`, only four columns, cost 99999; an A-mode row with splits whose inline units and own POS are interned before the rejection; an empty surface), 0-2 unread lines behind it; \
+the caller ignores the Err and goes on with further sources, resolve, compile; observed: the result of every read_lexicon, the written POS table and the stored POS ids (DictionaryLoader::read_user_dictionary), \
+the stack loaded under the plugin configuration (every kept word through LexiconSet::get_word_info, two texts over the kept words tokenised), judged against the KEPT CSV lines (rows in front of the rejected line + all rows of accepted sources); \
+grammar: get_part_of_speech_id / register_pos called directly (handle_user_pos is crate-private: reached through the plugins of the stack cases) on a real Grammar (POS of 5, 6, 7 components). non-trivial = stack with >= 1 user dictionary using a POS the system dictionary does not have, lexset with >= 1 appended \
+lexicon, every wid, reads where a source is rejected behind a kept row whose POS is not a system POS; distinct by line".into();
     run.extra.insert("variant_preload_pos".into(), serde_json::json!(impl_pre_variant()));
     run.extra.insert("variant_merge_user_dictionary".into(), serde_json::json!(impl_merge_variant()));
     let n = run.opts.count;
@@ -1539,6 +1917,7 @@ lexicon, every wid; distinct by line".into();
     const DIRECTED_LEXSET: usize = 4;
     const DIRECTED_WID: usize = 99;
     const DIRECTED_POSLIMIT: usize = 1;
+    const DIRECTED_READS: usize = 3;
     for idx in 0..n {
         if !run.wants(idx) { continue; }
         let mut rng = Rng::for_case(run.opts.seed, idx);
@@ -1550,9 +1929,12 @@ lexicon, every wid; distinct by line".into();
             run_wid(run, idx, &mut rng, Some(idx - DIRECTED_STACK - DIRECTED_LEXSET));
         } else if idx < DIRECTED_STACK + DIRECTED_LEXSET + DIRECTED_WID + DIRECTED_POSLIMIT {
             run_poslimit(run, idx, &mut rng, true);
+        } else if idx < DIRECTED_STACK + DIRECTED_LEXSET + DIRECTED_WID + DIRECTED_POSLIMIT + DIRECTED_READS {
+            run_reads(run, idx, &mut rng, Some(idx - DIRECTED_STACK - DIRECTED_LEXSET - DIRECTED_WID - DIRECTED_POSLIMIT));
         } else {
             match idx % 8 {
                 _ if idx % 64 == 37 => run_poslimit(run, idx, &mut rng, false),
+                5 => run_reads(run, idx, &mut rng, None),
                 0 => if idx % 16 == 0 { run_wid(run, idx, &mut rng, None) } else { run_grammar(run, idx, &mut rng) },
                 1 => run_lexset(run, idx, &mut rng, None),
                 _ => run_stack(run, idx, &mut rng, None),
